@@ -426,6 +426,26 @@ def run(ctx):
     kinds = ['full', 'partial', 'rebuild', 'centres', 'ignore', 'fail']
     cases = [c for _, c in core.corpus_cases('C04')]
     cases += [plan_rewind(rng) for _ in range(ctx.n(2, 16))]
+    # always exercised: an ignored molecule type listed on several [ molecules ] lines with molecules to be built in between
+    for _ in range(ctx.n(2, 10)):
+        ma = systems.gen_moltype(rng, 'MA', nres=rng.randint(1, 3), multi_atom=rng.random() < 0.5, shape='path', resnames=None)
+        ma['resnames'] = ['RA'] * ma['nres']
+        for a in ma['atoms']:
+            a['resname'] = 'RA'
+        mb = systems.gen_moltype(rng, 'MB', nres=rng.randint(2, 4), multi_atom=rng.random() < 0.5, shape='path')
+        mb['resnames'] = ['RB'] * mb['nres']
+        for a in mb['atoms']:
+            a['resname'] = 'RB'
+        sol = systems.gen_moltype(rng, 'SOL', nres=1, multi_atom=rng.random() < 0.5, shape='path')
+        sol['resnames'] = ['W']
+        for a in sol['atoms']:
+            a['resname'] = 'W'
+        molecules = rng.choice([[('MA', 1), ('SOL', 2), ('MB', 1), ('SOL', 1), ('MB', 1)],
+                                [('SOL', 1), ('MB', 1), ('SOL', 2), ('MA', 1)],
+                                [('MB', 1), ('SOL', 1), ('MA', 1), ('SOL', 2), ('MB', 1), ('SOL', 1)]])
+        nres_total = sum({'MA': ma, 'MB': mb, 'SOL': sol}[n]['nres'] * k for n, k in molecules)
+        cases.append({'kind': 'ignore', 'moltypes': [ma, mb, sol], 'molecules': molecules, 'seed': rng.randrange(10 ** 6), 'L': 7.0, 'skip': ['RB'],
+                      'ignore': ['SOL'], 'fail': {}, 'resolution': 'mol', 'nres_supplied': nres_total})
     # always exercised: one chain whose leading residues (the walk root included) are supplied, the rest built after
     # one or two abandoned attempts, at both resolutions
     for resolution in ('mol', 'meta_mol'):
